@@ -75,6 +75,9 @@ Defs == [
   N6  |-> [flavour |-> "namedtuple",   module |-> "m1", py |-> "N6",  fields |-> << <<"count", P("int"), FALSE>>, <<"index", P("Decimal"), FALSE>> >>],
   \* a slotted dataclass without any field (no __dict__ to fall back on)
   E0  |-> [flavour |-> "dc_slots",     module |-> "m1", py |-> "E0",  fields |-> << >>],
+  \* a dataclass with a field that is no constructor parameter (init=False, with a default)
+  D9  |-> [flavour |-> "dataclass",    module |-> "m1", py |-> "D9",  fields |-> << <<"a", P("int"), FALSE>>,
+                                                                                     <<"stamp", Wrap("noinit", P("date")), TRUE, "datetime.date(2020, 1, 1)">> >>],
   \* a dataclass whose instances can be called (a structured class like any other)
   K1  |-> [flavour |-> "dc_call",      module |-> "m1", py |-> "K1",  fields |-> << <<"n", P("int"), FALSE>>, <<"at", P("date"), FALSE>> >>],
   \* no class-level annotations: members come from the constructor's signature, one of them keyword-only
@@ -180,7 +183,7 @@ Ext(n) == [k |-> "ext", n |-> n]
 ExtNames == {"Any", "object", "list", "dict", "tuple", "set", "frozenset", "typing.List", "typing.Dict", "typing.Tuple",
              "typing.Set", "typing.Mapping", "typing.Sequence", "typing.Iterable", "T_free", "T_bound", "T_constr",
              "Callable", "CallableBare", "CallableEll", "type[int]", "typing.Type", "Box", "Box[int]", "Box[T]", "NoHints",
-             "VarHints", "KwOnly", "Empty", "WithAny", "InitHints"}
+             "VarHints", "KwOnly", "IVar", "Annotated[int]", "Annotated[list[date]]", "Empty", "WithAny", "InitHints"}
 \* positions whose value must come back untouched
 PassThroughNames == {"Any", "object", "T_free", "Callable", "CallableBare", "CallableEll", "type[int]", "typing.Type"}
 ExtLeaves == {Ext(n) : n \in ExtNames}
